@@ -164,12 +164,52 @@ def _replay_order_dependence(ctx, handles):
             return
 
 
+def _race_demonstration(module, sizes=(3, 64, 512, 700, 4096), reps=4):
+    """replay of (c) on the real (JIT-compiled) kernels: spreading from overlapping markers with one numba thread and with all
+    threads must give bit-identical fields.  Returns a description of the first difference, or None."""
+    import importlib
+
+    import numba
+
+    mod = importlib.import_module(module)
+    dim = 3 if module.endswith("3D") else 2
+    gen = getattr(mod, f"generate_lagrangian_to_eulerian_grid_interpolation_kernel_{dim}d")
+    nthreads = numba.config.NUMBA_NUM_THREADS
+    rng = np.random.default_rng(0)
+    try:
+        for n in sizes:
+            for nc in (1, dim):
+                k = gen(num_lag_nodes=n, interp_kernel_width=2, n_components=nc)
+                grid = (12,) * dim
+                nearest = rng.integers(4, 7, size=(dim, n))  # heavily overlapping 4^d windows
+                W = rng.uniform(0.1, 1.0, size=(4,) * dim + (n,))
+                F = rng.uniform(-1.0, 1.0, size=(n,) if nc == 1 else (dim, n))
+                shape = grid if nc == 1 else (dim, *grid)
+                numba.set_num_threads(1)
+                ref = np.zeros(shape)
+                k(ref, F, W, nearest)
+                for _ in range(reps):
+                    numba.set_num_threads(nthreads)
+                    out = np.zeros(shape)
+                    k(out, F, W, nearest)
+                    if not np.array_equal(out, ref):
+                        return f"{n} markers, {nc} component(s): result with {nthreads} threads differs from the 1-thread result (max diff {np.abs(out - ref).max():.3g})"
+    finally:
+        numba.set_num_threads(nthreads)
+    return None
+
+
 @scenario
 def spreading_is_serial(ctx, module):
-    """(c) syntactic: lagrangian->eulerian kernels are @njit without parallel=True and loop with range"""
+    """(c) lagrangian->eulerian kernels are @njit without parallel=True and loop over markers with the builtin range
+    (syntactic predicate on the real source); a refuted predicate is replayed as a race demonstration on the compiled kernels"""
     import importlib
 
     sopht_modules()
+    if not ctx.sym:
+        why = _race_demonstration(module)
+        ctx.replay_result = (True, why) if why else (False, "1-thread and all-thread spreading agree bitwise for 3..4096 overlapping markers")
+        return
     mod = importlib.import_module(module)
     src = inspect.getsource(mod)
     tree = ast.parse(src)
@@ -183,8 +223,9 @@ def spreading_is_serial(ctx, module):
                     for kw in d.keywords:
                         if kw.arg == "parallel" and not (isinstance(kw.value, ast.Constant) and kw.value.value is False):
                             par = True
-            prange = any(isinstance(x, ast.Call) and getattr(x.func, "id", getattr(x.func, "attr", "")) == "prange" for x in ast.walk(node))
-            ok = not par and not prange
+            # every loop of the kernel iterates over the builtin range (an alias could stand for numba.prange)
+            loops_ok = all(isinstance(x.iter, ast.Call) and isinstance(x.iter.func, ast.Name) and x.iter.func.id == "range" for x in ast.walk(node) if isinstance(x, ast.For))
+            ok = not par and loops_ok
             ctx.claims.append(Claim(f"serial_marker_loop:{node.name}", "unsat" if ok else "sat", {}, trivial=False))
             if not ok:
                 ctx.nfail += 1
